@@ -63,6 +63,60 @@ theorem step_after_crlf (ps : Gen.PState) (c : UInt8) (hs : ps.state = Gen.ps_sp
   simp [hs, Gen.ps_idle, Gen.ps_input_observed, Gen.ps_last_lf_exptected, Gen.ps_lf_exptected, Gen.ps_space_or_other_exptected,
     Gen.stepArm_space_or_other_exptected, h1, h2, h3, hu, Gen.pr_got_header]
 
+/-- obs-fold: after CRLF a blank **or a horizontal tab** continues the header: the CRLF is dropped from
+`header_`, the blank/tab itself is kept -/
+theorem step_fold (ps : Gen.PState) (c : UInt8) (hs : ps.state = Gen.ps_space_or_other_exptected)
+    (hc : c = 32 ∨ c = 9) (hlen : 2 ≤ ps.rhdr.length) (hu : ps.under = false) :
+    Gen.stepSwitch ps c.toNat = .cont { ps with state := Gen.ps_input_observed, rhdr := ps.rhdr.drop 2 } := by
+  have h3 : ¬ (ps.rhdr.length < 2) := by omega
+  unfold Gen.stepSwitch
+  rcases hc with rfl | rfl <;>
+  simp [hs, Gen.ps_idle, Gen.ps_input_observed, Gen.ps_last_lf_exptected, Gen.ps_lf_exptected, Gen.ps_space_or_other_exptected,
+    Gen.stepArm_space_or_other_exptected, h3, hu]
+
+/-- a continuation piece of a folded header: starts with SP or HTAB, no CR, quote or comment character -/
+structure ContPiece (p : Bytes) : Prop where
+  first : p.head? = some 32 ∨ p.head? = some 9
+  chars : ∀ c ∈ p, c ≠ 13 ∧ c ≠ 34 ∧ c ≠ 40
+
+/-- wire form of the continuation lines: `CRLF piece` each -/
+def encCont (tail : List Bytes) : Bytes := tail.flatMap fun p => 13 :: 10 :: p
+
+/-- inside a header (state `input_observed`): continuation lines are appended without their CRLF, then
+the line ends at a CRLF that is not followed by SP/HTAB -/
+theorem parserRun_cont (c : UInt8) (hc : c ≠ 32 ∧ c ≠ 9) (rest : Bytes) :
+    ∀ (tail : List Bytes) (ps : Gen.PState), (∀ p ∈ tail, ContPiece p) → ps.state = Gen.ps_input_observed →
+      ps.under = false → ps.unget = false →
+      parserRun ps (encCont tail ++ 13 :: 10 :: c :: rest) =
+        (Gen.pr_got_header, { ps with state := Gen.ps_idle, rhdr := (natsOf tail.flatten).reverse ++ ps.rhdr }, c :: rest) := by
+  intro tail
+  induction tail with
+  | nil =>
+    intro ps _ hs hu hg
+    simp only [encCont, List.flatMap_nil, List.nil_append]
+    rw [parserRun_cons_cont (c := 13) _ (step_cr_observed ps hs)]
+    rw [parserRun_cons_cont (c := 10) _ (step_lf _ (by simp [Gen.ps_lf_exptected]))]
+    rw [parserRun_cons_ret _ (step_after_crlf _ c (by simp [Gen.ps_space_or_other_exptected]) hc (by simp) (by simpa using hu))]
+    simp [natsOf, hg, hu]
+  | cons p t ih =>
+    intro ps hw hs hu hg
+    obtain ⟨hf, hch⟩ := hw p (by simp)
+    have hwt : ∀ q ∈ t, ContPiece q := fun q hq => hw q (by simp [hq])
+    cases p with
+    | nil => simp at hf
+    | cons b p' =>
+      have hb : b = 32 ∨ b = 9 := by simpa using hf
+      have hp' : ∀ x ∈ p', x ≠ 13 ∧ x ≠ 34 ∧ x ≠ 40 := fun x hx => hch x (by simp [hx])
+      have hshape : encCont ((b :: p') :: t) ++ 13 :: 10 :: c :: rest = 13 :: 10 :: b :: (p' ++ (encCont t ++ 13 :: 10 :: c :: rest)) := by
+        simp [encCont, List.append_assoc]
+      rw [hshape]
+      rw [parserRun_cons_cont (c := 13) _ (step_cr_observed ps hs)]
+      rw [parserRun_cons_cont (c := 10) _ (step_lf _ (by simp [Gen.ps_lf_exptected]))]
+      rw [parserRun_cons_cont _ (step_fold _ b (by simp [Gen.ps_space_or_other_exptected]) hb (by simp) (by simpa using hu))]
+      rw [parserRun_plain p' hp' _ _ (by simp [Gen.ps_input_observed])]
+      rw [ih _ hwt (by simp [Gen.ps_input_observed]) (by simpa using hu) (by simpa using hg)]
+      simp [natsOf, List.append_assoc]
+
 /-- one complete plain header line, seen from the idle state: `got_header` with exactly that line in
 `header_`, the look-ahead byte pushed back -/
 theorem parserRun_line (l : Bytes) (hl : PlainLine l) (c : UInt8) (hc : c ≠ 32 ∧ c ≠ 9) (rest : Bytes)
@@ -172,6 +226,113 @@ theorem hdrLoopC_lines : ∀ (ls : List Bytes) (r r' : HttpReq) (body : Bytes), 
         rfl
     rw [hq] at hfeed
     cases hh : httpGotHeader { r with ps := { state := Gen.ps_idle, bc := r.ps.bc, rhdr := (natsOf l).reverse, unget := r.ps.unget } } with
+    | none => rw [hh] at hfeed; simp at hfeed
+    | some r2 =>
+      rw [hh] at hfeed
+      simp only at hfeed ⊢
+      have hps := httpGotHeader_ps hh
+      simp only at hps
+      have := ih r2 r' body hwt (by rw [hps]) (by rw [hps]) (by rw [hps]; exact hg) hfeed
+      rw [hcr] at this
+      exact this
+
+/-! ## folded headers (obs-fold = CRLF 1*(SP / HTAB)) -/
+
+/-- a header line as the peer writes it: a first line and continuation lines -/
+structure FLine where
+  head : Bytes
+  tail : List Bytes := []
+
+/-- on the wire: the continuation lines follow after CRLF -/
+def FLine.wire (l : FLine) : Bytes := l.head ++ encCont l.tail
+/-- what the peer means, with the normalisation the code really applies: the CRLFs of the folds are
+dropped, the blanks/tabs that start the continuation lines are kept -/
+def FLine.value (l : FLine) : Bytes := l.head ++ l.tail.flatten
+
+structure WFLine (l : FLine) : Prop where
+  head : PlainLine l.head
+  tail : ∀ p ∈ l.tail, ContPiece p
+
+/-- **folded header round trip** at the parser: a header folded with SP or HTAB continuation lines is
+reported (`got_header`) with the unfolded value in `header_`, the look-ahead byte pushed back -/
+theorem parserRun_fline (l : FLine) (hl : WFLine l) (c : UInt8) (hc : c ≠ 32 ∧ c ≠ 9) (rest : Bytes)
+    (ps : Gen.PState) (hs : ps.state = Gen.ps_idle) (hu : ps.under = false) (hg : ps.unget = false) :
+    parserRun ps (l.wire ++ 13 :: 10 :: c :: rest) =
+      (Gen.pr_got_header, { ps with state := Gen.ps_idle, rhdr := (natsOf l.value).reverse }, c :: rest) := by
+  obtain ⟨⟨hne, hch, _⟩, htl⟩ := hl
+  unfold FLine.wire FLine.value
+  cases hh : l.head with
+  | nil => exact absurd hh hne
+  | cons c0 t =>
+    rw [hh] at hch
+    have hc0 := hch c0 (by simp)
+    have ht : ∀ x ∈ t, x ≠ 13 ∧ x ≠ 34 ∧ x ≠ 40 := fun x hx => hch x (by simp [hx])
+    simp only [List.cons_append, List.append_assoc]
+    rw [parserRun_cons_cont _ (step_plain_idle ps c0 hs hc0)]
+    rw [parserRun_plain t ht _ _ (by simp [Gen.ps_input_observed])]
+    rw [parserRun_cont c hc rest l.tail _ htl (by simp [Gen.ps_input_observed]) (by simpa using hu) (by simpa using hg)]
+    simp [natsOf, List.append_assoc]
+
+def encFLines (ls : List FLine) : Bytes := ls.flatMap (fun l => l.wire ++ [13, 10]) ++ [13, 10]
+
+theorem encFLines_head (ls : List FLine) (body : Bytes) (hw : ∀ l ∈ ls, WFLine l) :
+    ∃ c rest, encFLines ls ++ body = c :: rest ∧ c ≠ 32 ∧ c ≠ 9 := by
+  cases ls with
+  | nil => exact ⟨13, 10 :: body, by simp [encFLines], by decide, by decide⟩
+  | cons l t =>
+    obtain ⟨⟨hne, _, hf⟩, _⟩ := hw l (by simp)
+    cases hh : l.head with
+    | nil => exact absurd hh hne
+    | cons c u =>
+      rw [hh] at hf
+      refine ⟨c, u ++ encCont l.tail ++ [13, 10] ++ (encFLines t ++ body), by simp [encFLines, FLine.wire, hh, List.append_assoc], ?_, ?_⟩
+      · intro h0; apply hf.1; simp [h0]
+      · intro h0; apply hf.2; simp [h0]
+
+/-- header section with folded headers: every header reaches the per-header code with its unfolded value,
+one by one and in order; then `process_request`; the body is left unread -/
+theorem hdrLoopC_flines (cfg : HttpCfg) : ∀ (ls : List FLine) (r r' : HttpReq) (body : Bytes), (∀ l ∈ ls, WFLine l) →
+    r.ps.state = Gen.ps_idle → r.ps.under = false → r.ps.unget = false → feedLines r (ls.map FLine.value) = some r' →
+    hdrLoopC cfg r (encFLines ls ++ body) =
+      (match httpProcess cfg { r' with ps := { r'.ps with state := Gen.ps_last_lf_exptected, rhdr := [] } } with
+       | none => .fin (.done .raw400) body
+       | some h => .fin (.head h r'.is11) body) := by
+  intro ls
+  induction ls with
+  | nil =>
+    intro r r' body _ hs hu hg hfeed
+    simp only [List.map_nil, feedLines, Option.some.injEq] at hfeed
+    subst hfeed
+    rw [hdrLoopC_unfold]
+    have : encFLines [] ++ body = 13 :: 10 :: body := by simp [encFLines]
+    rw [this, parserRun_end body r.ps hs hg]
+    simp [hu, Gen.pr_end_of_headers, Gen.pr_more_data, Gen.pr_got_header]
+    rfl
+  | cons l t ih =>
+    intro r r' body hw hs hu hg hfeed
+    have hwl := hw l (by simp)
+    have hwt : ∀ x ∈ t, WFLine x := fun x hx => hw x (by simp [hx])
+    obtain ⟨c, rest, hcr, hc1, hc2⟩ := encFLines_head t body hwt
+    have hshape : encFLines (l :: t) ++ body = l.wire ++ 13 :: 10 :: c :: rest := by
+      rw [← hcr]; simp [encFLines, List.append_assoc]
+    rw [hdrLoopC_unfold, hshape, parserRun_fline l hwl c ⟨hc1, hc2⟩ rest r.ps hs hu hg]
+    simp only [hu, Bool.false_eq_true, if_false]
+    have h1 : (Gen.pr_got_header == Gen.pr_more_data) = false := by decide
+    have h2 : (Gen.pr_got_header == Gen.pr_got_header) = true := by decide
+    simp only [h1, h2, Bool.false_eq_true, if_false, if_true]
+    simp only [List.map_cons] at hfeed
+    unfold feedLines at hfeed
+    unfold lineState at hfeed
+    have hq : ({ r.ps with state := Gen.ps_idle, rhdr := (natsOf l.value).reverse } : Gen.PState) =
+        { state := Gen.ps_idle, bc := r.ps.bc, rhdr := (natsOf l.value).reverse, unget := r.ps.unget } := by
+      cases hr : r.ps with
+      | mk st bc rh ug ud =>
+        rw [hr] at hu
+        simp only at hu
+        subst hu
+        rfl
+    rw [hq] at hfeed
+    cases hh : httpGotHeader { r with ps := { state := Gen.ps_idle, bc := r.ps.bc, rhdr := (natsOf l.value).reverse, unget := r.ps.unget } } with
     | none => rw [hh] at hfeed; simp at hfeed
     | some r2 =>
       rw [hh] at hfeed
